@@ -103,9 +103,20 @@ public:
 	explicit ff_unbounded_queue() { _queue.init(); }
 	~ff_unbounded_queue() {}
 
-	bool try_push(T *source) { return _queue.push(source); }
+	// the FastFlow queue cannot carry a null pointer (it marks an empty slot), but callers use one as their stop
+	// sentinel (FIXWriter::stop): it travels as the address of a static object
+	static T *null_token() { static char token; return reinterpret_cast<T *>(&token); }
+
+	bool try_push(T *source) { return _queue.push(source ? source : null_token()); }
 	void push(T *source) { try_push(source); }
-	bool try_pop(T* &target) { return _queue.pop(reinterpret_cast<void**>(&target)); }
+	bool try_pop(T* &target)
+	{
+		if (!_queue.pop(reinterpret_cast<void**>(&target)))
+			return false;
+		if (target == null_token())
+			target = nullptr;
+		return true;
+	}
 	bool pop(T* &target)
 	{
 #if defined FIX8_SLEEP_NO_YIELD
